@@ -365,6 +365,7 @@ func corr(seed uint64, n, exh int) {
 		mf.file = hx.Exact(f)
 		emitFile(mf, genOracle(rng), rng.Bool())
 	}
+	corrSamples(rng, n/2+1)
 }
 
 // ---------------------------------------------------------------- search: the property itself
@@ -448,6 +449,8 @@ func search(seed uint64, n, exh int) {
 			}
 		}
 	}
+	searchSamples(rng, n/2+1)
+	searchFragmented(rng, n/2+1)
 	fmt.Fprintf(out, "EVALS\t%d\n", evals)
 }
 
